@@ -328,12 +328,17 @@ def check_equations(run, ir, nm, m, method, terminal, nsim, unant, ant, plan_spe
     for fr in L.frames:
         names, out, inp = fr["names"], fr["out"], fr["inp"]
         row = {n: i for i, n in enumerate(names)}
+        last_col = fr["columns"][-1]
         for j in fr["columns"]:
             def lookup(name, sh, j=j):
                 if name in nm.shocks:
                     a, b = out[row[name], j + sh], out[row["ant_" + name], j + sh]
                     return S.const(a) + S.const(b)
                 v = out[row[name], j + sh]
+                if terminal == "data" and method == "stacked_time" and j + sh > last_col and fr.get("ida") is not None:
+                    # terminal="data": the terminal condition in force is the user's INPUT beyond the span (the input data array),
+                    # not whatever the frame holds there when the solver starts
+                    v = fr["ida"][row[name], j + sh]
                 if isinstance(v, float) and math.isnan(v):
                     raise KeyError(f"{name}[{j + sh}] missing")
                 return v
